@@ -59,55 +59,8 @@ GENERIC_KEYS = ('rejected', 'exception-mismatch', 'value-mismatch', 'write-outsi
                 'series-missing', 'equation-denotes-differently', 'equation-missing')
 
 
-# ---- programs <-> JSON (replay files) ----------------------------------------------------------------------------
-
-def e2j(e):
-    if isinstance(e, gs.Term):
-        return ['T', e.kind, e.name, e.index]
-    if isinstance(e, gs.Num):
-        return ['N', e.text]
-    if isinstance(e, gs.Verb):
-        return ['V', e.text]
-    if isinstance(e, gs.Un):
-        return ['U', e.op, e2j(e.e)]
-    if isinstance(e, gs.Bin):
-        return ['B', e.op, e2j(e.l), e2j(e.r)]
-    if isinstance(e, gs.Call):
-        return ['C', e.fname, [e2j(a) for a in e.args]]
-    if isinstance(e, gs.IfElse):
-        return ['I', e2j(e.a), e2j(e.c), e2j(e.b)]
-    raise AssertionError(e)
-
-
-def j2e(j):
-    k = j[0]
-    if k == 'T':
-        return gs.Term(j[1], j[2], j[3])
-    if k == 'N':
-        return gs.Num(j[1])
-    if k == 'V':
-        return gs.Verb(j[1])
-    if k == 'U':
-        return gs.Un(j[1], j2e(j[2]))
-    if k == 'B':
-        return gs.Bin(j[1], j2e(j[2]), j2e(j[3]))
-    if k == 'C':
-        return gs.Call(j[1], tuple(j2e(a) for a in j[2]))
-    if k == 'I':
-        return gs.IfElse(j2e(j[1]), j2e(j[2]), j2e(j[3]))
-    raise AssertionError(j)
-
-
-def p2j(prog):
-    return [[e2j(st.lhs), e2j(st.rhs)] for st in ec.equations(prog)]
-
-
-def j2p(j):
-    return gs.Program([gs.Equation(j2e(l), j2e(r)) for l, r in j])
-
-
 def mkcase(prog, text, wrap=False, tag=None, span=None, stream='', seed=''):
-    return {'text': text, 'prog': p2j(prog), 'wrap': bool(wrap), 'tag': tag, 'span': span, 'stream': stream,
+    return {'text': text, 'prog': ec.p2j(prog), 'wrap': bool(wrap), 'tag': tag, 'span': span, 'stream': stream,
             'data_seed': f'{seed}:{text}'}
 
 
@@ -155,7 +108,8 @@ def stress_programs():
     return out
 
 
-FINDING_TAGS = ('function-name-collision', 'space-before-index', 'underscore-name-mangled', 'exponent-literal')
+FINDING_TAGS = ('function-name-collision', 'space-before-index', 'underscore-name-mangled', 'exponent-literal',
+                'constant-subexpression-executed')
 
 
 def finding_cases(seed):
@@ -175,6 +129,10 @@ def finding_cases(seed):
     for nm in gs.MANGLED_POOL:
         add('underscore-name-mangled', gs.Program([gs.Equation(Y, B('+', V(nm), N('1')))]))
     add('underscore-name-mangled', gs.Program([gs.Equation(V('_Y1'), B('*', V('X', -1), N('2')))]))
+    out.append(mkcase(gs.Program([gs.Equation(Y, B('+', C('log', (gs.Un('-', N('7')),)), V('X')))]), 'Y = log(-7) + X',
+                      stream='finding', seed=seed))
+    out.append(mkcase(gs.Program([gs.Equation(Y, B('*', V('X'), B('/', N('1'), B('-', N('2'), N('2')))))]), 'Y = X * (1 / (2 - 2))',
+                      stream='finding', seed=seed))
     add('exponent-literal', gs.Program([gs.Equation(Y, B('*', N('1e5'), V('X')))]))
     add('exponent-literal', gs.Program([gs.Equation(Y, B('+', V('X'), N('2.5e-1')))]))
     return out
@@ -238,32 +196,6 @@ def quick_cases(ctx):
 
 # ---- the real code: observables + oracle ---------------------------------------------------------------------------
 
-class TPos(int):
-    """The value of `t` inside a normalised equation: `t`, `t+k`, `t-k` stay positions, anything else is a label."""
-
-    def __add__(self, k):
-        return TPos(int(self) + k)
-
-    def __sub__(self, k):
-        return TPos(int(self) - k)
-
-
-class Ser:
-    """Series for evaluating a normalised equation as Python: positions (`t±k`) and span labels."""
-
-    def __init__(self, arr, span):
-        self.arr, self.span = arr, span
-
-    def _p(self, k):
-        return int(k) if isinstance(k, TPos) else self.span.index(k)
-
-    def __getitem__(self, k):
-        return self.arr[self._p(k)]
-
-    def __setitem__(self, k, v):
-        self.arr[self._p(k)] = v
-
-
 def evaluate_with(model, t, extra):
     """`model._evaluate(t)` with extra global names visible to the generated code (harness-only functions)."""
     orig = type(model)._evaluate
@@ -280,15 +212,6 @@ def evaluate_with(model, t, extra):
         return type(e).__name__
 
 
-def make_locate(span):
-    """Index text of a named period (quoted, or between backticks) -> position in the span."""
-    import ast
-
-    def locate(ix):
-        return span.index(ast.literal_eval(ix[1:-1] if ix.startswith('`') else ix))
-    return locate
-
-
 def term_cells(prog, t, locate):
     cells = set()
     for st in ec.equations(prog):
@@ -300,7 +223,7 @@ def term_cells(prog, t, locate):
 def observe(case, rep, want_impl=True):
     """Run the real code on one case: the oracle (property restated over the grammar AST) and, for T, the
     observables the model is compared with.  Returns the impl record (or None)."""
-    prog = j2p(case['prog'])
+    prog = ec.j2p(case['prog'])
     text = case['text']
     tag = case.get('tag')
     eqs = ec.equations(prog)
@@ -312,16 +235,18 @@ def observe(case, rep, want_impl=True):
     span = case.get('span')
     lags, leads = exp['lags'], exp['leads']
     n = len(span) if span else lags + leads + 3
-    loc_term = make_locate(span)
+    loc_term = ec.make_locate(span)
     rng = random.Random(case['data_seed'])
     data0 = gs.random_data(rng, prog, n)
     b = ec.Built(text)
     impl = {'error': b.error}
     rep.dist['stream:' + case['stream'].split(':')[0]] += 1
     if b.error:
-        if b.error == 'ZeroDivisionError':       # constant sub-expression such as 1/(2-2): C13's subject, not C01's
-            rep.dist['skipped:constant-zero-division'] += 1
-            return None
+        if b.executed_at_parse() and ec.has_failing_constant(prog):
+            rep.violate('constant-subexpression-executed', f'accepted-grammar script rejected at parse time with {b.error}: '
+                        f'parse_model executes the statement, a constant sub-expression raised/warned: {b.error_msg[:120]}', case)
+            rep.case(text, nontrivial=False)
+            return impl
         violate('rejected', f'program of the grammar rejected with {b.error}: {b.error_msg}')
         rep.case(text, nontrivial=False)
         return impl
@@ -379,8 +304,8 @@ def observe(case, rep, want_impl=True):
             violate('read-wrong-cell', f't={t}: read {bad_r[:4]}, the terms of the script are at {sorted(allowed)}')
         wrote = wrote or bool(w_ref)
         # normalised equations, evaluated by Python itself in symbol order, must give the same pass
-        env = {nm: Ser(v.copy(), span) for nm, v in data0.items()}
-        env.update({'t': TPos(t), 'exp': np.exp, 'log': np.log, 'max': max, 'min': min, 'abs': abs, 'np': np, 'float': float,
+        env = {nm: ec.Ser(v.copy(), span) for nm, v in data0.items()}
+        env.update({'t': ec.TPos(t), 'exp': np.exp, 'log': np.log, 'max': max, 'min': min, 'abs': abs, 'np': np, 'float': float,
                     'self': m, 'len': len})
         env.update(EXTRA_FUNCS)
         try:
@@ -410,7 +335,7 @@ def observe(case, rep, want_impl=True):
 # ---- T: model vs implementation --------------------------------------------------------------------------------------
 
 def model_requests(case):
-    prog = j2p(case['prog'])
+    prog = ec.j2p(case['prog'])
     toks = [ec.stmt_toks(st, case['wrap']) for st in ec.equations(prog)]
     return toks
 
@@ -419,7 +344,7 @@ def compare(case, impl, forms, evalp, rep):
     """forms / evalp: parsed JSON replies of the driver."""
     if impl is None or impl.get('error'):
         return
-    prog = j2p(case['prog'])
+    prog = ec.j2p(case['prog'])
     eqs = ec.equations(prog)
     for i, st in enumerate(eqs):
         if impl['eq'][i] is None:
@@ -463,11 +388,11 @@ def drive_cases(ctx, cases, impls):
         lines.append(ec.line('expr_forms', {'stmts': toks}))
         first = impl.get('first')
         if first is not None:
-            prog = j2p(case['prog'])
+            prog = ec.j2p(case['prog'])
             span = case.get('span')
             labels = {}
             if span:
-                loc = make_locate(span)
+                loc = ec.make_locate(span)
                 for st in ec.equations(prog):
                     for term in [st.lhs] + gs.terms_of(st.rhs):
                         if isinstance(term.index, str):
